@@ -48,7 +48,7 @@ theorem schedule_eq {σ : Type} (S : Scheduler σ) (k : Kernel) (s : σ) :
         | .continueAfter n =>
           if k.stepBoundExceeded n then .ok { bump k with next := .stopped } s none else scheduleCore S k s
         | .none => scheduleCore S k s := by
-  obtain ⟨tasks, current, next, hy, cs, ra, sr, seed, ms, pk⟩ := k
+  obtain ⟨tasks, current, next, hy, cs, ra, sr, seed, ms, pk, apk⟩ := k
   unfold Kernel.schedule
   by_cases hn : (next != Cur.none) = true
   · simp only [hn, if_true]
@@ -57,17 +57,17 @@ theorem schedule_eq {σ : Type} (S : Scheduler σ) (k : Kernel) (s : σ) :
     | none => rfl
     | failAfter n =>
       simp only
-      by_cases he : Kernel.stepBoundExceeded ⟨tasks, current, next, hy, cs, ra, sr, seed, .failAfter n, pk⟩ n = true
-      · have he' : Kernel.stepBoundExceeded ⟨tasks, current, next, hy, cs + 1, ra, sr, seed, .failAfter n, pk⟩ n = true := he
+      by_cases he : Kernel.stepBoundExceeded ⟨tasks, current, next, hy, cs, ra, sr, seed, .failAfter n, pk, apk⟩ n = true
+      · have he' : Kernel.stepBoundExceeded ⟨tasks, current, next, hy, cs + 1, ra, sr, seed, .failAfter n, pk, apk⟩ n = true := he
         simp only [he, he', if_true]; rfl
-      · have he' : ¬ Kernel.stepBoundExceeded ⟨tasks, current, next, hy, cs + 1, ra, sr, seed, .failAfter n, pk⟩ n = true := he
+      · have he' : ¬ Kernel.stepBoundExceeded ⟨tasks, current, next, hy, cs + 1, ra, sr, seed, .failAfter n, pk, apk⟩ n = true := he
         simp only [he, he']; rfl
     | continueAfter n =>
       simp only
-      by_cases he : Kernel.stepBoundExceeded ⟨tasks, current, next, hy, cs, ra, sr, seed, .continueAfter n, pk⟩ n = true
-      · have he' : Kernel.stepBoundExceeded ⟨tasks, current, next, hy, cs + 1, ra, sr, seed, .continueAfter n, pk⟩ n = true := he
+      by_cases he : Kernel.stepBoundExceeded ⟨tasks, current, next, hy, cs, ra, sr, seed, .continueAfter n, pk, apk⟩ n = true
+      · have he' : Kernel.stepBoundExceeded ⟨tasks, current, next, hy, cs + 1, ra, sr, seed, .continueAfter n, pk, apk⟩ n = true := he
         simp only [he, he', if_true]; rfl
-      · have he' : ¬ Kernel.stepBoundExceeded ⟨tasks, current, next, hy, cs + 1, ra, sr, seed, .continueAfter n, pk⟩ n = true := he
+      · have he' : ¬ Kernel.stepBoundExceeded ⟨tasks, current, next, hy, cs + 1, ra, sr, seed, .continueAfter n, pk, apk⟩ n = true := he
         simp only [he, he']; rfl
 
 /-- the configured step bound (if any) is not reached in `k` -/
